@@ -489,7 +489,9 @@ func (g *G) Mutate(v *refval.V) *refval.V {
 			c.L = append(c.L, c.L[i])
 		case 2: // rename to an arbitrary key (the solver decides whether it collides)
 			i := nd.Choose(g.name("which"), len(c.L))
-			c.Keys[i] = nd.String(g.name("newkey"), len(c.Keys[i]))
+			// of the same length, or of the lengths the family's field and member names have
+			kl := []int{len(c.Keys[i]), 1, 3}[nd.Choose(g.name("newkeylen"), 3)]
+			c.Keys[i] = nd.String(g.name("newkey"), kl)
 		case 3: // reorder
 			if len(c.L) > 1 {
 				c.Keys[0], c.Keys[1] = c.Keys[1], c.Keys[0]
